@@ -487,4 +487,499 @@ theorem addHTTPMethod_ok {d kids anc c c'} (hk : isHTTP d.kind = true) (h : addH
   have hne : d.kind ≠ .Method := by intro h'; rw [h'] at hk; revert hk; decide
   exact .method sim i ns extra g (by simp [isMeth, hk]) (by simpa [idOf, Ent.chain, hne] using liftAt_ok hi)
     (by simpa [Cat.hasInter] using hhas) hg hex
+theorem addJsonRpcMethod_ok {d kids anc c c'} (hk : d.kind = .Method) (h : addJsonRpcMethod d kids anc c = .ok c') :
+    StepR ⟨d, kids, anc⟩ c c' := by
+  unfold addJsonRpcMethod at h
+  simp only [fail] at h
+  split at h; · cases h
+  split at h; · cases h
+  split at h; · cases h
+  obtain ⟨i, hi, h⟩ := bind_ok h
+  split at h; · cases h
+  rename_i hhas
+  obtain ⟨⟨ns, c₂⟩, ht, h⟩ := bind_ok h
+  obtain ⟨extra, rfl, hex, _⟩ := tagsFor_ok ht
+  obtain ⟨g, hg, ha⟩ := attachAll_keep i ns { c with tags := c.tags ++ extra }
+  cases h
+  simp only [] at ha
+  rw [ha]
+  exact .method c.similar i ns extra g (by simp [isMeth, hk]) (by simpa [idOf, Ent.chain, hk] using liftAt_ok hi)
+    (by simp at hhas; simpa [Cat.hasInter] using hhas.1) hg hex
+
+theorem StepR.trans_inters {e : Ent} {c c₁ c₂ : Cat} (hn : neutral e.d.kind)
+    (h₁ : ∃ g, KeepI g ∧ c₁ = { c with inters := c.inters.map g })
+    (h₂ : ∃ g, KeepI g ∧ c₂ = { c₁ with inters := c₁.inters.map g }) : StepR e c c₂ := by
+  obtain ⟨g₁, hg₁, rfl⟩ := h₁
+  obtain ⟨g₂, hg₂, rfl⟩ := h₂
+  have : ({ c with inters := (c.inters.map g₁).map g₂ } : Cat) = { c with inters := c.inters.map (g₂ ∘ g₁) } := by
+    simp
+  simp only [] 
+  rw [this]
+  refine .inters _ hn ?_
+  intro x
+  have a := hg₁ x
+  have b := hg₂ (g₁ x)
+  exact ⟨b.1.trans a.1, b.2.1.trans a.2.1, b.2.2.trans a.2.2⟩
+
+/-- `c'` is `c` with its interactions mapped by a core-preserving function -/
+def IMap (c c' : Cat) : Prop := ∃ g, KeepI g ∧ c' = { c with inters := c.inters.map g }
+
+theorem IMap.refl (c : Cat) : IMap c c := ⟨id, fun _ => ⟨rfl, rfl, rfl⟩, by simp⟩
+theorem IMap.upd (c : Cat) (i : IId) (f : InterM → InterM) (hf : KeepI f) : IMap c (c.updInter i f) :=
+  updInter_keep c i f hf
+theorem IMap.trans {c c₁ c₂ : Cat} (h₁ : IMap c c₁) (h₂ : IMap c₁ c₂) : IMap c c₂ := by
+  obtain ⟨g₁, hg₁, rfl⟩ := h₁
+  obtain ⟨g₂, hg₂, rfl⟩ := h₂
+  refine ⟨g₂ ∘ g₁, ?_, by simp⟩
+  intro x
+  have a := hg₁ x
+  have b := hg₂ (g₁ x)
+  exact ⟨b.1.trans a.1, b.2.1.trans a.2.1, b.2.2.trans a.2.2⟩
+theorem IMap.step {e : Ent} {c c' : Cat} (hn : neutral e.d.kind) (h : IMap c c') : StepR e c c' := by
+  obtain ⟨g, hg, rfl⟩ := h
+  exact .inters g hn hg
+
+theorem addQuery_im {d anc c c'} (h : addQuery d anc c = .ok c') : IMap c c' := by
+  unfold addQuery at h
+  simp only [fail] at h
+  split at h; · cases h
+  split at h; · cases h
+  obtain ⟨i, _, h⟩ := bind_ok h
+  split at h; · cases h
+  split at h; · cases h
+  cases h
+  exact .upd _ _ _ (fun x => ⟨rfl, rfl, rfl⟩)
+
+theorem addRequestBody_im {d anc b c c'} (h : addRequestBody d anc b c = .ok c') : IMap c c' := by
+  unfold addRequestBody at h
+  simp only [fail] at h
+  obtain ⟨i, _, h⟩ := bind_ok h
+  split at h; · cases h
+  split at h; · cases h
+  split at h; · cases h
+  cases h
+  exact .upd _ _ _ (fun x => ⟨rfl, rfl, rfl⟩)
+
+theorem addRequest_im {d anc c c'} (h : addRequest d anc c = .ok c') : IMap c c' := by
+  unfold addRequest at h
+  simp only [fail] at h
+  split at h; · cases h
+  split at h; · cases h
+  obtain ⟨nt, _, h⟩ := bind_ok h
+  split at h
+  · obtain ⟨i, _, h⟩ := bind_ok h
+    obtain ⟨c₁, h₁, h⟩ := bind_ok h
+    cases h₁
+    have hc₁ : IMap c (c.updInter i fun x => if x.request.isNone then { x with request := some { id := d.id } } else x) := by
+      refine .upd _ _ _ (fun x => ?_)
+      split <;> exact ⟨rfl, rfl, rfl⟩
+    repeat' split at h
+    any_goals (exact hc₁.trans (addRequestBody_im h))
+    · cases h
+    · cases h; exact hc₁
+  · obtain ⟨c₁, h₁, h⟩ := bind_ok h
+    cases h₁
+    repeat' split at h
+    any_goals (exact addRequestBody_im h)
+    · cases h
+    · cases h; exact .refl _
+
+theorem addResponseBody_im {d anc b c c'} (h : addResponseBody d anc b c = .ok c') : IMap c c' := by
+  unfold addResponseBody at h
+  simp only [fail] at h
+  obtain ⟨i, _, h⟩ := bind_ok h
+  split at h; · cases h
+  split at h; · cases h
+  split at h; · cases h
+  cases h
+  exact .upd _ _ _ (fun x => ⟨rfl, rfl, rfl⟩)
+
+theorem addResponse_im {d anc c c'} (h : addResponse d anc c = .ok c') : IMap c c' := by
+  unfold addResponse at h
+  simp only [fail] at h
+  split at h; · cases h
+  obtain ⟨nt, _, h⟩ := bind_ok h
+  generalize (d.kind == Kind.Body && _) = clash at h
+  split at h; · cases h
+  split at h
+  · obtain ⟨i, _, h⟩ := bind_ok h
+    obtain ⟨c₁, h₁, h⟩ := bind_ok h
+    cases h₁
+    have hc₁ : IMap c (c.updInter i fun x =>
+        { x with responses := x.responses ++ [{ id := d.id, code := d.keyword, annot := d.annot }] }) :=
+      .upd _ _ _ (fun x => ⟨rfl, rfl, rfl⟩)
+    repeat' split at h
+    any_goals (exact hc₁.trans (addResponseBody_im h))
+    · cases h
+    · cases h; exact hc₁
+  · obtain ⟨c₁, h₁, h⟩ := bind_ok h
+    cases h₁
+    repeat' split at h
+    any_goals (exact addResponseBody_im h)
+    · cases h
+    · cases h; exact .refl _
+
+theorem addHeaders_im {d anc c c'} (h : addHeaders d anc c = .ok c') : IMap c c' := by
+  unfold addHeaders at h
+  simp only [fail] at h
+  split at h; · cases h
+  split at h; · cases h
+  split at h; · cases h
+  split at h
+  · obtain ⟨i, _, h⟩ := bind_ok h
+    split at h; · cases h
+    split at h; · cases h
+    split at h; · cases h
+    cases h
+    exact .upd _ _ _ (fun x => ⟨rfl, rfl, rfl⟩)
+  split at h
+  · obtain ⟨i, _, h⟩ := bind_ok h
+    split at h; · cases h
+    split at h; · cases h
+    split at h; · cases h
+    cases h
+    exact .upd _ _ _ (fun x => ⟨rfl, rfl, rfl⟩)
+  · cases h
+
+theorem addBody_im {d anc c c'} (h : addBody d anc c = .ok c') : IMap c c' := by
+  unfold addBody at h
+  simp only [fail] at h
+  split at h; · cases h
+  split at h; · cases h
+  split at h; · exact addRequest_im h
+  split at h; · exact addResponse_im h
+  cases h; exact .refl _
+
+theorem addRpcSchema_im {p d anc c c'} (h : addRpcSchema p d anc c = .ok c') : IMap c c' := by
+  unfold addRpcSchema at h
+  simp only [fail] at h
+  split at h; · cases h
+  split at h; · cases h
+  obtain ⟨i, _, h⟩ := bind_ok h
+  split at h; · cases h
+  split at h
+  · split at h; · cases h
+    cases h
+    exact .upd _ _ _ (fun x => ⟨rfl, rfl, rfl⟩)
+  · split at h; · cases h
+    cases h
+    exact .upd _ _ _ (fun x => ⟨rfl, rfl, rfl⟩)
+
+theorem addProtocol_ok {d kids anc c c'} (hk : d.kind = .Protocol) (h : addProtocol d anc c = .ok c') :
+    StepR ⟨d, kids, anc⟩ c c' := by
+  unfold addProtocol at h
+  peel h
+  cases h
+  exact .proto _ (by simp [hk, neutral])
+
+theorem addTags_ok {d c c'} (h : addTags d c = .ok c') : c' = c := by
+  unfold addTags at h
+  obtain ⟨_, _, h⟩ := bind_ok h
+  cases h; rfl
+theorem step_ok {banned : List Kind} {e : Ent} {c c' : Cat} (h : step banned e c = .ok c') :
+    e.d.kind ∉ banned ∧ StepR e c c' := by
+  obtain ⟨d, kids, anc⟩ := e
+  unfold step addDirective at h
+  simp only [fail] at h
+  split at h; · cases h
+  rename_i hb
+  refine ⟨by simpa using hb, ?_⟩
+  have nt : ∀ {k}, d.kind = k → neutral k = true → neutral (Ent.mk d kids anc).d.kind = true := by
+    intro k hk hn; simpa [hk] using hn
+  split at h
+  · exact addJSight_ok ‹_› h
+  · exact addInfo_ok ‹_› h
+  · exact addTitle_ok ‹_› h
+  · exact addVersion_ok ‹_› h
+  · exact addDescription_ok ‹_› h
+  · exact addServer_ok ‹_› h
+  · exact addBaseUrl_ok ‹_› h
+  · exact addType_ok ‹_› h
+  · exact addURL_ok ‹_› h
+  · exact addHTTPMethod_ok (by simp [*, isHTTP_iff]) h
+  · exact addHTTPMethod_ok (by simp [*, isHTTP_iff]) h
+  · exact addHTTPMethod_ok (by simp [*, isHTTP_iff]) h
+  · exact addHTTPMethod_ok (by simp [*, isHTTP_iff]) h
+  · exact addHTTPMethod_ok (by simp [*, isHTTP_iff]) h
+  · exact (addQuery_im h).step (nt ‹_› rfl)
+  · exact (addRequest_im h).step (nt ‹_› rfl)
+  · exact (addResponse_im h).step (nt ‹_› rfl)
+  · exact (addHeaders_im h).step (nt ‹_› rfl)
+  · exact (addBody_im h).step (nt ‹_› rfl)
+  · exact addProtocol_ok ‹_› h
+  · exact addJsonRpcMethod_ok ‹_› h
+  · exact (addRpcSchema_im h).step (nt ‹_› rfl)
+  · exact (addRpcSchema_im h).step (nt ‹_› rfl)
+  · rw [addTags_ok h]; exact .same (nt ‹_› rfl)
+  · cases h
+    refine .same ?_
+    rename_i h1 h2 h3 h4 h5 h6 h7 h8 h9 h10 h11 h12 h13 h14 h15 h16 h17 h18 h19 h20 h21 h22 h23 h24
+    show neutral d.kind = true
+    cases hk : d.kind <;> simp_all [neutral]
+/-! ### `compile` unpacked -/
+
+theorem compile_ok {banned : List Kind} {f : List BTree} {c : Cat} (h : compile banned f = .ok c) :
+    ∃ c₀, collectTags f {} = .ok c₀ ∧ checkTypeNames f = .ok () ∧ (∃ x, pathsForest [] f none = .ok x) ∧
+      (∀ t r, f = t :: r → t.dir.kind = .Jsight) ∧ run banned (flatAF [] f) c₀ = .ok c ∧
+      validateInfo c = .ok () ∧ validateRequestBody c.inters = .ok () ∧ validateResponseBody c.inters = .ok () := by
+  unfold compile at h
+  obtain ⟨c₀, h0, h⟩ := bind_ok h
+  obtain ⟨⟨⟩, h1, h⟩ := bind_ok h
+  obtain ⟨x, h2, h⟩ := bind_ok h
+  have key : (∀ t r, f = t :: r → t.dir.kind = .Jsight) ∧
+      (do let c ← addForest banned [] f c₀
+          validateInfo c
+          validateRequestBody c.inters
+          validateResponseBody c.inters
+          pure c) = Except.ok c := by
+    dsimp only at h
+    split at h
+    · split at h
+      · obtain ⟨_, h3, _⟩ := bind_ok h
+        cases h3
+      · refine ⟨?_, h⟩
+        intro t r hf
+        cases hf
+        simp_all
+    · exact ⟨fun t r hf => (by cases hf), h⟩
+  obtain ⟨h3, h⟩ := key
+  obtain ⟨c₁, h4, h⟩ := bind_ok h
+  obtain ⟨⟨⟩, h5, h⟩ := bind_ok h
+  obtain ⟨⟨⟩, h6, h⟩ := bind_ok h
+  obtain ⟨⟨⟩, h7, h⟩ := bind_ok h
+  cases h
+  exact ⟨c₀, h0, h1, ⟨x, h2⟩, h3, by rw [← addForest_eq_run]; exact h4, h5, h6, h7⟩
+
+theorem compile_of {banned : List Kind} {f : List BTree} {c₀ c : Cat} {x : Option Nat}
+    (h0 : collectTags f {} = .ok c₀) (h1 : checkTypeNames f = .ok ()) (h2 : pathsForest [] f none = .ok x)
+    (h3 : ∀ t r, f = t :: r → t.dir.kind = .Jsight) (h4 : run banned (flatAF [] f) c₀ = .ok c)
+    (h5 : validateInfo c = .ok ()) (h6 : validateRequestBody c.inters = .ok ())
+    (h7 : validateResponseBody c.inters = .ok ()) : compile banned f = .ok c := by
+  unfold compile
+  rw [← addForest_eq_run] at h4
+  simp only [h0, h1, h2, h4, h5, h6, h7, bind, Except.bind]
+  cases f with
+  | nil => rfl
+  | cons t r => simp [h3 t r rfl]; rfl
+/-! ### `collectTags` -/
+
+def declTag (d : BDir) : TagM :=
+  { name := d.param "TagName", title := if d.annot.isEmpty then d.param "TagName" else d.annot, declared := true }
+
+/-- the tags declared at the top level -/
+def declTags (f : List BTree) : List TagM := ((f.map BTree.dir).filter (·.kind == .TAG)).map declTag
+
+theorem collectTags_ok : ∀ (f : List BTree) (c c' : Cat), collectTags f c = .ok c' →
+    c' = { c with tags := c.tags ++ declTags f }
+  | [], c, c', h => by simp [collectTags] at h; subst h; simp [declTags]
+  | t :: r, c, c', h => by
+    unfold collectTags at h
+    simp only [fail] at h
+    split at h
+    · split at h; · cases h
+      split at h; · cases h
+      have := collectTags_ok r _ _ h
+      rw [this]
+      simp_all [declTags, declTag]
+    · have := collectTags_ok r _ _ h
+      rw [this]
+      simp_all [declTags]
+
+theorem collectTags_empty {f : List BTree} {c₀ : Cat} (h : collectTags f {} = .ok c₀) :
+    c₀ = { tags := declTags f } := by
+  rw [collectTags_ok f _ _ h]; simp
+
+/-! ### what one step does to each projection -/
+
+theorem neutral_facts {k : Kind} (h : neutral k = true) :
+    (k == Kind.Type) = false ∧ (k == Kind.Server) = false ∧ isMeth k = false ∧ k ≠ .Jsight := by
+  cases k <;> first | (cases h; done) | decide
+
+theorem isMeth_facts {k : Kind} (h : isMeth k = true) :
+    (k == Kind.Type) = false ∧ (k == Kind.Server) = false ∧ k ≠ .Jsight := by
+  cases k <;> first | (revert h; decide) | decide
+
+theorem flatMap_if {α β γ : Type} (f : α → β) (p : β → Bool) (q : β → γ) (l : List α) :
+    l.flatMap (fun e => if p (f e) then [q (f e)] else []) = ((l.map f).filter p).map q := by
+  induction l with
+  | nil => rfl
+  | cons a r ih =>
+    simp only [List.flatMap_cons, ih, List.map_cons, List.filter_cons]
+    split <;> simp
+
+theorem types_stepR {e : Ent} {c c' : Cat} (h : StepR e c c') :
+    c'.types.map (fun t => (t.name, t.annot)) = c.types.map (fun t => (t.name, t.annot)) ++
+      (if e.d.kind == Kind.Type then [(e.d.param "Name", e.d.annot)] else []) := by
+  cases h
+  case same hn => simp [(neutral_facts hn).1]
+  case inters hn _ => simp [(neutral_facts hn).1]
+  case tagsMap hn _ => simp [(neutral_facts hn).1]
+  case proto hn => simp [(neutral_facts hn).1]
+  case method hm _ _ _ _ => simp [(isMeth_facts hm).1]
+  all_goals simp [*]
+
+theorem servers_stepR {e : Ent} {c c' : Cat} (h : StepR e c c') :
+    c'.servers.map (fun t => (t.name, t.annot)) = c.servers.map (fun t => (t.name, t.annot)) ++
+      (if e.d.kind == Kind.Server then [(e.d.param "Name", e.d.annot)] else []) := by
+  cases h
+  case same hn => simp [(neutral_facts hn).2.1]
+  case inters hn _ => simp [(neutral_facts hn).2.1]
+  case tagsMap hn _ => simp [(neutral_facts hn).2.1]
+  case proto hn => simp [(neutral_facts hn).2.1]
+  case method hm _ _ _ _ => simp [(isMeth_facts hm).2.1]
+  case baseUrl g hk hg =>
+    simp only [hk, List.map_map]
+    have : ((fun t : ServerM => (t.name, t.annot)) ∘ g) = (fun t => (t.name, t.annot)) := by
+      funext x; simp [(hg x).1, (hg x).2]
+    rw [this]; simp
+  all_goals simp [*]
+
+theorem inters_stepR {e : Ent} {c c' : Cat} (h : StepR e c c') :
+    c'.inters.map (fun x => (Except.ok x.iid, x.annot)) = c.inters.map (fun x => (Except.ok x.iid, x.annot)) ++
+      (if isMeth e.d.kind then [(idOf e, e.d.annot)] else []) := by
+  cases h
+  case same hn => simp [(neutral_facts hn).2.2.1]
+  case tagsMap hn _ => simp [(neutral_facts hn).2.2.1]
+  case proto hn => simp [(neutral_facts hn).2.2.1]
+  case method hm hi _ _ _ => simp [hm, hi]
+  case inters g hn hg =>
+    simp only [(neutral_facts hn).2.2.1, List.map_map]
+    have : ((fun x : InterM => ((Except.ok x.iid : Except Msg IId), x.annot)) ∘ g) = (fun x => (Except.ok x.iid, x.annot)) := by
+      funext x; simp [(hg x).1, (hg x).2.1]
+    rw [this]; simp
+  all_goals simp [*, isMeth, isHTTP_iff]
+
+/-! ### group A -/
+
+theorem types_run {banned : List Kind} {l : List Ent} {c c' : Cat} (h : run banned l c = .ok c') :
+    c'.types.map (fun t => (t.name, t.annot)) = c.types.map (fun t => (t.name, t.annot)) ++
+      ((l.map (·.d)).filter (·.kind == Kind.Type)).map (fun d => (d.param "Name", d.annot)) := by
+  rw [← flatMap_if (fun e : Ent => e.d) (·.kind == Kind.Type) (fun d => (d.param "Name", d.annot))]
+  exact run_proj (fun c => c.types.map (fun t => (t.name, t.annot))) _
+    (fun e c c' hs => types_stepR (step_ok hs).2) l c c' h
+
+theorem servers_run {banned : List Kind} {l : List Ent} {c c' : Cat} (h : run banned l c = .ok c') :
+    c'.servers.map (fun t => (t.name, t.annot)) = c.servers.map (fun t => (t.name, t.annot)) ++
+      ((l.map (·.d)).filter (·.kind == Kind.Server)).map (fun d => (d.param "Name", d.annot)) := by
+  rw [← flatMap_if (fun e : Ent => e.d) (·.kind == Kind.Server) (fun d => (d.param "Name", d.annot))]
+  exact run_proj (fun c => c.servers.map (fun t => (t.name, t.annot))) _
+    (fun e c c' hs => servers_stepR (step_ok hs).2) l c c' h
+
+theorem inters_run {banned : List Kind} {l : List Ent} {c c' : Cat} (h : run banned l c = .ok c') :
+    c'.inters.map (fun x => (Except.ok x.iid, x.annot)) = c.inters.map (fun x => (Except.ok x.iid, x.annot)) ++
+      (l.filter (fun e => isMeth e.d.kind)).map (fun e => (idOf e, e.d.annot)) := by
+  have := flatMap_if (fun e : Ent => e) (fun e => isMeth e.d.kind) (fun e => (idOf e, e.d.annot)) l
+  simp only [List.map_id'] at this
+  rw [← this]
+  exact run_proj (fun c => c.inters.map (fun x => (Except.ok x.iid, x.annot))) _
+    (fun e c c' hs => inters_stepR (step_ok hs).2) l c c' h
+/-! ### tags -/
+
+/-- declared tags first -/
+def Part (l : List TagM) : Prop := l.filter (·.declared) ++ l.filter (fun t => !t.declared) = l
+
+theorem tags_stepR {e : Ent} {c c' : Cat} (h : StepR e c c') :
+    ∃ extra g, KeepT g ∧ (∀ a ∈ extra, a.declared = false) ∧ c'.tags = (c.tags ++ extra).map g := by
+  have idk : KeepT id := fun _ => ⟨rfl, rfl, rfl⟩
+  cases h
+  case tagsMap g _ hg => exact ⟨[], g, hg, by simp, by simp⟩
+  case method extra g _ _ _ hg hex =>
+    refine ⟨extra, g, hg, ?_, rfl⟩
+    rcases hex with rfl | ⟨a, rfl, ha, _⟩ <;> simp [*]
+  all_goals exact ⟨[], id, idk, by simp, by simp⟩
+
+theorem keepT_declared {g : TagM → TagM} (hg : KeepT g) : ((fun t : TagM => t.declared) ∘ g) = (fun t => t.declared) := by
+  funext x; simp [(hg x).2.2]
+
+theorem filter_decl_map {g : TagM → TagM} (hg : KeepT g) (l : List TagM) :
+    (l.map g).filter (·.declared) = (l.filter (·.declared)).map g := by
+  rw [List.filter_map, keepT_declared hg]
+
+theorem filter_undecl_map {g : TagM → TagM} (hg : KeepT g) (l : List TagM) :
+    (l.map g).filter (fun t => !t.declared) = (l.filter (fun t => !t.declared)).map g := by
+  rw [List.filter_map]
+  congr 2
+  funext x; simp [(hg x).2.2]
+
+theorem filter_decl_extra {extra : List TagM} (h : ∀ a ∈ extra, a.declared = false) :
+    extra.filter (·.declared) = [] ∧ extra.filter (fun t => !t.declared) = extra := by
+  constructor
+  · rw [List.filter_eq_nil_iff]; intro a ha; simp [h a ha]
+  · rw [List.filter_eq_self]; intro a ha; simp [h a ha]
+
+theorem Part_step {l extra : List TagM} {g : TagM → TagM} (hg : KeepT g) (hex : ∀ a ∈ extra, a.declared = false)
+    (h : Part l) : Part ((l ++ extra).map g) := by
+  unfold Part at *
+  rw [filter_decl_map hg, filter_undecl_map hg, List.filter_append, List.filter_append,
+    (filter_decl_extra hex).1, (filter_decl_extra hex).2, List.append_nil, ← List.map_append, ← List.append_assoc, h]
+
+theorem declNT_step {l extra : List TagM} {g : TagM → TagM} (hg : KeepT g) (hex : ∀ a ∈ extra, a.declared = false) :
+    (((l ++ extra).map g).filter (·.declared)).map (fun t => (t.name, t.title)) =
+      (l.filter (·.declared)).map (fun t => (t.name, t.title)) := by
+  rw [filter_decl_map hg, List.filter_append, (filter_decl_extra hex).1, List.append_nil, List.map_map]
+  congr 1
+  funext x; simp [(hg x).1, (hg x).2.1]
+
+theorem tags_run {banned : List Kind} {l : List Ent} {c c' : Cat} (h : run banned l c = .ok c') :
+    (c'.tags.filter (·.declared)).map (fun t => (t.name, t.title)) =
+      (c.tags.filter (·.declared)).map (fun t => (t.name, t.title)) ∧ (Part c.tags → Part c'.tags) := by
+  constructor
+  · exact run_inv (fun x => (x.tags.filter (·.declared)).map (fun t => (t.name, t.title)) =
+        (c.tags.filter (·.declared)).map (fun t => (t.name, t.title))) l (fun e _ c₁ c₂ hp hs => by
+        obtain ⟨extra, g, hg, hex, ht⟩ := tags_stepR (step_ok hs).2
+        simp only [ht, declNT_step hg hex]; exact hp) c c' rfl h
+  · exact run_inv (fun c => Part c.tags) l (fun e _ c c' hp hs => by
+        obtain ⟨extra, g, hg, hex, ht⟩ := tags_stepR (step_ok hs).2
+        simp only [ht]; exact Part_step hg hex hp) c c'  |> fun k hp => k hp h
+
+theorem declTags_all (f : List BTree) : ∀ t ∈ declTags f, t.declared = true := by
+  intro t ht
+  simp only [declTags, List.mem_map] at ht
+  obtain ⟨d, _, rfl⟩ := ht
+  rfl
+
+theorem Part_of_all {l : List TagM} (h : ∀ t ∈ l, t.declared = true) : Part l := by
+  unfold Part
+  have h1 : l.filter (·.declared) = l := by rw [List.filter_eq_self]; exact h
+  have h2 : l.filter (fun t => !t.declared) = [] := by
+    rw [List.filter_eq_nil_iff]; intro a ha; simp [h a ha]
+  rw [h1, h2, List.append_nil]
+
+theorem Part_split {l : List TagM} (h : Part l) :
+    ∃ n, (l.take n).all (·.declared) = true ∧ (l.drop n).all (fun t => !t.declared) = true := by
+  refine ⟨(l.filter (·.declared)).length, ?_, ?_⟩
+  · have : l.take (l.filter (·.declared)).length = l.filter (·.declared) := by
+      conv => lhs; arg 2; rw [← h]
+      simp
+    rw [this]; simp
+  · have : l.drop (l.filter (·.declared)).length = l.filter (fun t => !t.declared) := by
+      conv => lhs; arg 2; rw [← h]
+      simp
+    rw [this]; simp
+theorem jsight_stepR {e : Ent} {c c' : Cat} (h : StepR e c c') :
+    (e.d.kind = .Jsight → c'.jsight = v03) ∧ (c.jsight = v03 → c'.jsight = v03) := by
+  cases h
+  case same hn => exact ⟨fun hk => absurd hk (neutral_facts hn).2.2.2, id⟩
+  case inters hn _ => exact ⟨fun hk => absurd hk (neutral_facts hn).2.2.2, id⟩
+  case tagsMap hn _ => exact ⟨fun hk => absurd hk (neutral_facts hn).2.2.2, id⟩
+  case proto hn => exact ⟨fun hk => absurd hk (neutral_facts hn).2.2.2, id⟩
+  case method hm _ _ _ _ => exact ⟨fun hk => absurd hk (isMeth_facts hm).2.2, id⟩
+  case jsight => exact ⟨fun _ => rfl, fun _ => rfl⟩
+  all_goals exact ⟨fun hk => by simp_all, id⟩
+
+theorem flatAF_head {anc : List Up} {t : BTree} {r : List BTree} :
+    ∃ rest, flatAF anc (t :: r) = ⟨t.dir, t.kids.map BTree.dir, anc⟩ :: rest := by
+  cases t with
+  | node d kids =>
+    exact ⟨flatAF (⟨d, kids.map BTree.dir⟩ :: anc) kids ++ flatAF anc r, by simp [flatAF, flatA, BTree.dir, BTree.kids]⟩
+
+theorem jsight_run {banned : List Kind} {e : Ent} {l : List Ent} {c c' : Cat} (hk : e.d.kind = .Jsight)
+    (h : run banned (e :: l) c = .ok c') : c'.jsight = v03 := by
+  simp only [run] at h
+  cases hs : step banned e c with
+  | error x => simp [hs] at h
+  | ok c₁ =>
+    simp only [hs] at h
+    exact run_inv (fun c => c.jsight = v03) l (fun e _ c c' hp hs => (jsight_stepR (step_ok hs).2).2 hp) c₁ c'
+      ((jsight_stepR (step_ok hs).2).1 hk) h
 end JSight.C04B
